@@ -138,7 +138,9 @@ def index_(interp, st, s, idx, node):
 
 
 def str_method(interp, st, s, name, args, kwargs, node):
-    if isinstance(s, str) and all(isinstance(a, (str, int)) or a is None for a in args):
+    # concrete tuples of strings (startswith/endswith with alternatives)
+    args = [tuple(a.items) if isinstance(a, VTuple) and all(isinstance(x, str) for x in a.items) else a for a in args]
+    if isinstance(s, str) and all(isinstance(a, (str, int, tuple)) or a is None for a in args):
         if name in ("split", "strip", "lstrip", "rstrip", "lower", "upper", "capitalize", "startswith",
                     "endswith", "replace", "isdigit", "isalpha", "find", "title", "join"):
             if name == "join":
